@@ -2,6 +2,7 @@
 from __future__ import annotations
 
 import collections
+import unicodedata
 import hashlib
 import json
 import os
@@ -52,7 +53,8 @@ def gen_spelling(rng, scratch_depth_hint=2):
                         "absolute", "inside_odd", "dotdot_then_in",
                         "sibling_prefix", "absolute_norm",
                         "absolute_double_slash", "absolute_sibling_prefix",
-                        "backslash_dotdot", "backslash_absolute"])
+                        "backslash_dotdot", "backslash_absolute",
+                        "unicode_lookalike"])
     comps = ["a", "b", "x y", "déjà", "train", "."]
     if style == "dotdot":
         parts = [".."] * rng.randrange(1, 4) + [rng.choice(["decoy", "outer"])]
@@ -71,6 +73,11 @@ def gen_spelling(rng, scratch_depth_hint=2):
         # a path as a Windows writer would spell it: harmless single POSIX
         # component unless somebody converts the separators
         parts = ["BSL", "..", "..", "decoy", rng.choice(["x", "deep"])]
+    elif style == "unicode_lookalike":
+        # U+2025 / U+FF0F look like ".." and "/" and become them under
+        # compatibility normalisation: one harmless component as stored
+        parts = ["UNI"] + [".."] * rng.randrange(1, 4) + [
+            "decoy", rng.choice(["x", "deep"])]
     elif style == "backslash_absolute":
         parts = ["BSLABS", rng.choice(["decoy", "outer_abs"])]
     elif style == "absolute_sibling_prefix":
@@ -93,6 +100,8 @@ def render(sp, scratch, base_dir):
     parts = list(sp["parts"])
     if parts and parts[0] == "BSL":
         return "\\".join(parts[1:])
+    if parts and parts[0] == "UNI":
+        return "\uff0f".join("\u2025" if p == ".." else p for p in parts[1:])
     if parts and parts[0] == "BSLABS":
         return "\\" + (os.path.join(scratch, "abs_area") + "/" + "/".join(
             parts[1:])).replace("/", "\\").lstrip("\\")
@@ -111,6 +120,9 @@ def gen_case(rng, tier, index):
                                                   "multi"))
     return {"hist": hist, "field": rng.choice(FIELDS),
             "spelling": gen_spelling(rng), "pick": rng.getrandbits(16),
+            # another dataset, located where the hostile path points, is
+            # opened between opening this one and using it
+            "open_other": rng.random() < 0.4,
             "seed": rng.getrandbits(32), "sched_seed": rng.getrandbits(48),
             "iface": rng.choice(["sync", "conc", "async", "rust", "tfdata"
                                  if rng.random() < 0.3 else "sync"])}
@@ -186,6 +198,8 @@ def run_case(case):
         env.fs.hooks.append(eff)
         with env.fs.suspended():
             info, lists, shards = dsgen.walk_tree(root)
+            with open(os.path.join(root, "dataset_info.json"), "rb") as f:
+                pristine_info = f.read()
             my_lists = sorted(r for r, m in lists.items()
                               if m["split"] == split)
             my_shards = [s for s in shards if s["split"] == split]
@@ -205,6 +219,9 @@ def run_case(case):
                 if "\\" in stored:
                     plant(os.path.normpath(os.path.join(
                         root, stored.replace("\\", "/"))), a_list)
+                if "\u2025" in stored:
+                    plant(os.path.normpath(os.path.join(
+                        root, unicodedata.normalize("NFKC", stored))), a_list)
                 info["splits"][split]["shard_list_info_file"][
                     "file_path"] = stored
                 with open(os.path.join(root, "dataset_info.json"), "w",
@@ -248,6 +265,9 @@ def run_case(case):
                 if "\\" in stored and field != "relative_path_self":
                     plant(os.path.normpath(os.path.join(
                         root, stored.replace("\\", "/"))), src)
+                if "\u2025" in stored and field != "relative_path_self":
+                    plant(os.path.normpath(os.path.join(
+                        root, unicodedata.normalize("NFKC", stored))), src)
                 with open(os.path.join(root, rel), "w", encoding="utf-8") as f:
                     json.dump(doc, f)
                 target_doc = rel
@@ -290,6 +310,27 @@ def run_case(case):
             holder = {}
             attempt("open", lambda: holder.setdefault("ds", env.open()))
             ds = holder.get("ds")
+            if case.get("open_other") and resolved_outside and \
+                    os.path.exists(resolved):
+                # a legitimate second dataset whose directory contains the
+                # file the hostile path names (its own reads are not ours)
+                with env.fs.suspended():
+                    other_root = os.path.dirname(resolved)
+                    if case["pick"] & 1 and os.path.dirname(
+                            other_root).startswith(SCRATCH_GUARD[0] + os.sep):
+                        other_root = os.path.dirname(other_root)
+                    if other_root.startswith(SCRATCH_GUARD[0] + os.sep) and \
+                            not root.startswith(other_root + os.sep) and \
+                            other_root != root:
+                        try:
+                            with open(os.path.join(other_root,
+                                                   "dataset_info.json"),
+                                      "wb") as f:
+                                f.write(pristine_info)
+                            holder["other"] = env.hr.sio.Dataset(other_root)
+                            probes["other_dataset_opened_in_between"] += 1
+                        except Exception:  # pylint: disable=broad-except
+                            probes["other_dataset_failed_to_open"] += 1
             if ds is not None:
                 attempt("check", lambda: ds.check(show_progressbar=False))
                 iface = case["iface"] if eread.supports(case["iface"],
